@@ -427,3 +427,23 @@ def minimize(prop, config_json, ops_json, clause, known, budget=300):
                 config_json.clear()
                 config_json.update(c2)
     return ops, evals[0], True
+
+
+def run_given(seed, n_examples, strategy, fn, shrink=False):
+    """plain @given run with the same determinism settings as the machines"""
+    import hypothesis
+    from hypothesis import settings, HealthCheck, Phase, Verbosity, given
+
+    phases = [Phase.generate, Phase.target]
+    if shrink:
+        phases.append(Phase.shrink)
+    s = settings(max_examples=n_examples, deadline=None, database=None, derandomize=False, report_multiple_bugs=False,
+                 phases=phases, verbosity=Verbosity.quiet, suppress_health_check=list(HealthCheck), print_blob=False)
+
+    @hypothesis.seed(seed)
+    @s
+    @given(strategy)
+    def test(x):
+        fn(x)
+
+    test()
